@@ -14,6 +14,7 @@ import (
 	"runtime"
 	"runtime/debug"
 	"sort"
+	"strings"
 	"sync"
 
 	"github.com/RoaringBitmap/roaring/v2"
@@ -76,12 +77,14 @@ type diBound struct {
 }
 
 type diWalk struct {
-	TS    []int      `json:"ts"`
-	Acc   []int      `json:"acc"`
-	Lo    diBound    `json:"lo"`
-	Hi    diBound    `json:"hi"`
-	Ents  []ODictEnt `json:"ents"`
-	Ents2 []ODictEnt `json:"ents2"`
+	TS     []int      `json:"ts"`
+	Acc    []int      `json:"acc"`
+	Lo     diBound    `json:"lo"`
+	Hi     diBound    `json:"hi"`
+	Ents   []ODictEnt `json:"ents"`
+	Ents2  []ODictEnt `json:"ents2"`
+	EntsD0 []ODictEnt `json:"entsd0"`
+	EntsD1 []ODictEnt `json:"entsd1"`
 }
 
 type diDict struct {
@@ -155,6 +158,12 @@ func runDictIter(walksPath, dictsPath, dir, outPath string) {
 		if w.Ents2 == nil {
 			w.Ents2 = []ODictEnt{}
 		}
+		if w.EntsD0 == nil {
+			w.EntsD0 = []ODictEnt{}
+		}
+		if w.EntsD1 == nil {
+			w.EntsD1 = []ODictEnt{}
+		}
 		groups[keyInts(w.TS)] = append(groups[keyInts(w.TS)], w)
 		nw++
 	})
@@ -213,6 +222,65 @@ func runDictIter(walksPath, dictsPath, dir, outPath string) {
 			continue
 		}
 		segs["pair"] = sp
+		// built under chunk mode 2 (documents 0,1 | 2) and merged alone with document 0, resp. document 1 (the last
+		// of the first chunk), deleted
+		zap.DefaultChunkMode = 2
+		small, _, err := plugin.New(MakeDocs(d.Batch))
+		zap.DefaultChunkMode = 1026
+		if err != nil {
+			diffs = append(diffs, diDiff{What: "setup", Got: "build under chunk mode 2: " + err.Error()})
+			continue
+		}
+		failed := false
+		// ... persisted while the package default is a different chunk mode again, and re-opened
+		pp := filepath.Join(dir, fmt.Sprintf("di%d-mode2.zap", n))
+		os.Remove(pp)
+		if err := small.(segment.UnpersistedSegment).Persist(pp); err != nil {
+			diffs = append(diffs, diDiff{What: "setup", Got: "persist of the chunk mode 2 segment: " + err.Error()})
+			continue
+		}
+		if so, err := plugin.Open(pp); err != nil {
+			diffs = append(diffs, diDiff{What: "setup", Got: "open of the chunk mode 2 segment: " + err.Error()})
+			continue
+		} else {
+			segs["mmap-mode2"] = so
+			mp2 := filepath.Join(dir, fmt.Sprintf("di%d-mode2-merged.zap", n))
+			os.Remove(mp2)
+			if _, _, err := plugin.Merge([]segment.Segment{so}, []*roaring.Bitmap{nil}, mp2, nil, nil); err != nil {
+				diffs = append(diffs, diDiff{What: "setup", Got: "merge of the re-opened chunk mode 2 segment: " + err.Error()})
+				continue
+			}
+			sm, err := plugin.Open(mp2)
+			if err != nil {
+				diffs = append(diffs, diDiff{What: "setup", Got: "open of the merged chunk mode 2 segment: " + err.Error()})
+				continue
+			}
+			segs["mode2-merged"] = sm
+		}
+		for _, dd := range []int{0, 1} {
+			dp := filepath.Join(dir, fmt.Sprintf("di%d-drop%d.zap", n, dd))
+			os.Remove(dp)
+			bm := roaring.New()
+			bm.Add(uint32(dd))
+			zap.DefaultChunkMode = 2
+			_, _, err := plugin.Merge([]segment.Segment{small}, []*roaring.Bitmap{bm}, dp, nil, nil)
+			zap.DefaultChunkMode = 1026
+			if err != nil {
+				diffs = append(diffs, diDiff{What: "setup", Got: fmt.Sprintf("merge with document %d deleted: %v", dd, err)})
+				failed = true
+				break
+			}
+			sd, err := plugin.Open(dp)
+			if err != nil {
+				diffs = append(diffs, diDiff{What: "setup", Got: "open merged-with-deletion: " + err.Error()})
+				failed = true
+				break
+			}
+			segs[fmt.Sprintf("dropped%d", dd)] = sd
+		}
+		if failed {
+			continue
+		}
 		jobs = append(jobs, job{d, groups[k], segs})
 	}
 	var mu sync.Mutex
@@ -249,12 +317,13 @@ func runDictIter(walksPath, dictsPath, dir, outPath string) {
 					ld = append(ld, diDiff{Kind: kind, What: "Dictionary", Got: err.Error()})
 					continue
 				}
-				if dict.Cardinality() != len(jb.d.TS) {
+				dropped := strings.HasPrefix(kind, "dropped") // terms may have vanished: the enumerations say which
+				if !dropped && dict.Cardinality() != len(jb.d.TS) {
 					ld = append(ld, diDiff{Walk: diWalk{TS: jb.d.TS}, Kind: kind, What: "Cardinality", Got: fmt.Sprint(dict.Cardinality()), Want: fmt.Sprint(len(jb.d.TS))})
 				}
 				for i, t := range jb.d.Cat {
 					has, err := dict.Contains(t)
-					if err != nil || has != inTS[i+1] {
+					if !dropped && (err != nil || has != inTS[i+1]) {
 						ld = append(ld, diDiff{Walk: diWalk{TS: jb.d.TS}, Kind: kind, What: "Contains", Got: fmt.Sprint(has, err), Want: fmt.Sprint(inTS[i+1])})
 					}
 				}
@@ -325,8 +394,13 @@ func runDictIter(walksPath, dictsPath, dir, outPath string) {
 								}
 							}
 							want := w.Ents
-							if kind == "pair" {
+							switch kind {
+							case "pair":
 								want = w.Ents2
+							case "dropped0":
+								want = w.EntsD0
+							case "dropped1":
+								want = w.EntsD1
 							}
 							if js(got) != js(want) {
 								ld = append(ld, diDiff{Walk: *w, Kind: kind, Auto: au.name, What: "entries", Got: js(got), Want: js(want)})
